@@ -162,6 +162,32 @@ def run(ctx):
         if len(pending) >= 1000:
             flush()
     flush()
+    # 2b. object identity (model MkH): the working matrix self.C consists of NEW row objects, its final contents and the caller's matrix
+    #     as read back afterwards are what the row-heap model gives
+    hp, hmeta = [], []
+    shared2 = Munkres()
+    for k in range(ctx.scale(250, 2500)):
+        m = gen_random(ctx.rng, ['small', 'int', 'tie', 'grade', 'frac'][k % 5])
+        if len(m) > 6 or len(m[0]) > 6:
+            m = [row[:6] for row in m[:6]]
+        rows_before = [row for row in m]                     # the caller's row OBJECTS
+        solver = shared2 if ctx.rng.random() < 0.5 else Munkres()
+        before, res = solve_impl(solver, m)
+        if isinstance(res, str):
+            ctx.violation(res, {'matrix': to_model(before), 'kind': 'heap'}, impl=res); continue
+        aliased = [i for i, row in enumerate(solver.C) if any(row is r0 for r0 in rows_before)]
+        case = {'matrix': to_model(before), 'kind': 'heap'}
+        if aliased:
+            ctx.violation('the solver\'s working matrix shares row objects %r with the caller\'s matrix' % aliased, case, impl=res)
+        if any(a is not b for a, b in zip(m, rows_before)) or m != before:
+            ctx.violation('caller matrix modified', case, impl=to_model(m))
+        ctx.case({'matrix': to_model(before), 'aliased': aliased}, nontrivial_key=('heap', repr(to_model(before))) if nontrivial(before) else None, kind='heap')
+        hp.append({'op': 'munkres_heap', 'm': to_model(before)})
+        hmeta.append((case, res, [[frac_to_str(Fraction(x)) for x in row] for row in solver.C], to_model(m)))
+    if ctx.driver:
+        for (case, res, finalC, after), o in zip(hmeta, ctx.driver.ask_many(hp)):
+            if o.get('out') != res or o.get('finalC') != finalC or o.get('caller') != after or o.get('fresh') is not True:
+                ctx.disagree('row-heap model: result / final working matrix / caller matrix differ', case, {'out': res, 'finalC': finalC, 'caller': after}, o)
     # 3. contract monitor: general floats against the DP oracle (not compared with the model)
     for k in range(ctx.scale(300, 5000)):
         r, c = ctx.rng.randint(1, 8), ctx.rng.randint(1, 8)
